@@ -20,7 +20,8 @@ import onnx_ir as ir
 
 from vp import common, xh
 
-OPTIONS_Q = [dict(), dict(rename=True), dict(use_operators=True), dict(inline_const=True), dict(use_operators=True, inline_const=True)]
+OPTIONS_Q = [dict(), dict(rename=True), dict(use_operators=True), dict(inline_const=True), dict(use_operators=True, inline_const=True),
+             dict(skip_initializers=True)]
 
 
 def all_options():
@@ -41,6 +42,7 @@ def _worker(payload):
     mp = onnx.load_from_string(mb)
     rec = {"model": name, "options": opts, "verdict": None, "detail": "", "stage": None}
     rec["has_initializer_input"] = bool({t.name for t in mp.graph.initializer} & {i.name for i in mp.graph.input})
+    rec["function_attribute_names"] = sorted({a for f in mp.functions for a in list(f.attribute) + [ap.name for ap in f.attribute_proto]})
     stats = Q.Stats()
     try:
         src = onnx_export.export2python(mp, **opts)
@@ -55,30 +57,52 @@ def _worker(payload):
         rec.update(verdict="invalid_python", stage="compile", detail=str(e)[:200])
         rec["solver"] = stats.as_dict()
         return rec
-    if opts.get("skip_initializers"):
-        # the generated module defines a model factory taking initializer values; checked for syntax only
-        rec.update(verdict="syntax_only", stage="compile")
-        rec["solver"] = stats.as_dict()
-        return rec
     try:
         mod = S.load_source(src, "c13")
     except Exception as e:  # noqa: BLE001
         rec.update(verdict="decoration_failed", stage="decorate", detail=f"{type(e).__name__}: {str(e)[:200]}")
         rec["solver"] = stats.as_dict()
         return rec
-    fns = [v for k, v in vars(mod).items() if hasattr(v, "to_model_proto") and hasattr(v, "function_ir")]
-    main = [f for f in fns if f.name == (mp.graph.name or "")]
-    fn = main[0] if main else (fns[-1] if fns else None)
-    if fn is None:
-        rec.update(verdict="decoration_failed", stage="decorate", detail="no script function defined by the generated module")
-        rec["solver"] = stats.as_dict()
-        return rec
-    try:
-        m2 = fn.to_model_proto()
-    except Exception as e:  # noqa: BLE001
-        rec.update(verdict="export_of_roundtrip_failed", stage="to_model_proto", detail=f"{type(e).__name__}: {str(e)[:200]}")
-        rec["solver"] = stats.as_dict()
-        return rec
+    if opts.get("skip_initializers"):
+        # the generated module defines make_model(<skipped initializers>): call it with the original values of the initializers
+        # the exporter skips (more than 4 elements; main graph first, then subgraphs in node order)
+        from onnx import numpy_helper as nh
+
+        def large(g):
+            out_ = [nh.to_array(t) for t in g.initializer if int(np.prod(t.dims)) > 4]
+            for n_ in g.node:
+                for a_ in n_.attribute:
+                    if a_.type == onnx.AttributeProto.GRAPH:
+                        out_ += large(a_.g)
+            return out_
+        try:
+            import inspect
+            mk = getattr(mod, "make_model")
+            args = large(mp.graph)
+            if len(inspect.signature(mk).parameters) != len(args):
+                rec.update(verdict="signature_changed", stage="make_model",
+                           detail=f"make_model takes {len(inspect.signature(mk).parameters)} initializers, the model has {len(args)} large ones")
+                rec["solver"] = stats.as_dict()
+                return rec
+            m2 = mk(*args)
+        except Exception as e:  # noqa: BLE001
+            rec.update(verdict="decoration_failed", stage="make_model", detail=f"{type(e).__name__}: {str(e)[:200]}")
+            rec["solver"] = stats.as_dict()
+            return rec
+    else:
+        fns = [v for k, v in vars(mod).items() if hasattr(v, "to_model_proto") and hasattr(v, "function_ir")]
+        main = [f for f in fns if f.name == (mp.graph.name or "")]
+        fn = main[0] if main else (fns[-1] if fns else None)
+        if fn is None:
+            rec.update(verdict="decoration_failed", stage="decorate", detail="no script function defined by the generated module")
+            rec["solver"] = stats.as_dict()
+            return rec
+        try:
+            m2 = fn.to_model_proto()
+        except Exception as e:  # noqa: BLE001
+            rec.update(verdict="export_of_roundtrip_failed", stage="to_model_proto", detail=f"{type(e).__name__}: {str(e)[:200]}")
+            rec["solver"] = stats.as_dict()
+            return rec
     ins1 = list(mp.graph.input)
     if len(ins1) != len(m2.graph.input) or len(mp.graph.output) != len(m2.graph.output):
         rec.update(verdict="signature_changed", stage="signature",
@@ -186,6 +210,46 @@ def corpus(tier):
                 items.append((f"script:{p.name}:tricky-names", am.SerializeToString(), [(n, int(dt), tuple(sh)) for n, dt, sh in spec]))
         except Exception:  # noqa: BLE001 - refused programs are not in the class
             continue
+    # every binary operator the exporter may render as a Python operator (and look-alikes with attributes), per element type
+    from onnx import helper as oh
+    from onnx import TensorProto as TP
+    table = [("Add", {}), ("Sub", {}), ("Mul", {}), ("Div", {}), ("Pow", {}), ("MatMul", {}), ("Mod", {"fmod": 1}), ("Mod", {"fmod": 0}),
+             ("And", {}), ("Or", {}), ("Xor", {}), ("Greater", {}), ("Less", {}), ("Equal", {}), ("GreaterOrEqual", {}), ("LessOrEqual", {}),
+             ("BitShift", {"direction": "LEFT"}), ("BitShift", {"direction": "RIGHT"})]
+    for opn, at in table:
+        for dt in (TP.FLOAT, TP.INT64, TP.BOOL, TP.UINT8):
+            logical, cmp_ = opn in ("And", "Or", "Xor"), opn in ("Greater", "Less", "Equal", "GreaterOrEqual", "LessOrEqual")
+            if logical != (dt == TP.BOOL) and not (cmp_ and dt != TP.BOOL and dt != TP.UINT8):
+                if not (dt in (TP.FLOAT, TP.INT64) and not logical and opn != "BitShift"):
+                    if not (opn == "BitShift" and dt == TP.UINT8):
+                        continue
+            if dt == TP.UINT8 and opn != "BitShift":
+                continue
+            if opn == "BitShift" and dt != TP.UINT8:
+                continue
+            if opn == "Mod" and dt == TP.FLOAT and not at.get("fmod"):
+                continue
+            if opn == "MatMul" and dt != TP.FLOAT:
+                continue
+            if opn == "Pow" and dt != TP.FLOAT:
+                continue
+            shp = [2, 2] if opn == "MatMul" else [3]
+            odt = TP.BOOL if (cmp_ or logical) else dt
+            nodes = [oh.make_node(opn, ["x", "y"], ["t"], **at)]
+            if odt == TP.BOOL:
+                nodes.append(oh.make_node("Not", ["t"], ["z"]))
+            elif odt == TP.UINT8:
+                nodes.append(oh.make_node("Identity", ["t"], ["z"]))
+            else:
+                nodes.append(oh.make_node("Neg", ["t"], ["z"]))
+            g = oh.make_graph(nodes, "optable", [oh.make_tensor_value_info("x", dt, shp), oh.make_tensor_value_info("y", dt, shp)],
+                              [oh.make_tensor_value_info("z", odt, shp)])
+            m = oh.make_model(g, opset_imports=[oh.make_opsetid("", 18)], ir_version=9)
+            try:
+                onnx.checker.check_model(m, full_check=True)
+            except Exception:  # noqa: BLE001
+                continue
+            items.append((f"optable:{opn}{at or ''}:{TP.DataType.Name(dt)}", m.SerializeToString(), [("x", int(dt), tuple(shp)), ("y", int(dt), tuple(shp))]))
     from vp.gen import models as GM
     n_gen = 25 if tier == "quick" else 300
     for i in range(n_gen):
@@ -227,6 +291,10 @@ def main(tier: str, only=None) -> int:
                 continue
             if m.get("initializer_input") and not r.get("has_initializer_input"):
                 continue
+            if m.get("unbound_is_function_attribute") and not any(
+                    f"Unbound name: {a}." in (r.get("detail") or "") or f"Unbound name: {a}" == (r.get("detail") or "").strip().split("ERROR: ")[-1].rstrip(".")
+                    for a in r.get("function_attribute_names") or []):
+                continue
             run.known(k["text"])
             return
         label = f"{r['model']} options={r['options']}"
@@ -267,6 +335,6 @@ def main(tier: str, only=None) -> int:
         "verdicts": counts, "queries": solver, "options": opts,
         "functions_encoded": [common.src_ref(onnx_export.export2python), common.src_ref(onnx_export._Exporter)],
     })
-    run.assumptions += ["skip_initializers=True output is checked for syntax only (it defines a model factory, not a script function)",
+    run.assumptions += ["skip_initializers=True: the generated make_model() is called with the original values of the skipped initializers and its result compared like the others",
                         "models: typed variants of the script corpus + tensor-typed generated models without sequences / local functions"]
     return run.finish()
